@@ -606,6 +606,19 @@ func main() {
 		})
 		ords := map[string]int{}
 		ast.Inspect(g.decl.Body, func(n ast.Node) bool {
+			if ce, ok := n.(*ast.CallExpr); ok {
+				if se, ok := ce.Fun.(*ast.SelectorExpr); ok && mapWalkers[se.Sel.Name] && len(ce.Args) == 1 {
+					if fl, ok := ce.Args[0].(*ast.FuncLit); ok {
+						ex := se.Sel.Name + "(func)"
+						ords[ex]++
+						cl, why := "insensitive", "callback with per-element effects only"
+						if countsIDs(fl.Body) {
+							cl, why = "choice", "the callback hands out identifiers: their values follow the map iteration order"
+						}
+						out.Ranges = append(out.Ranges, RangeSite{Func: g.name, Pkg: g.pkg, Expr: ex, Ord: ords[ex], Class: cl, Reason: why})
+					}
+				}
+			}
 			rs, ok := n.(*ast.RangeStmt)
 			if !ok || !isMapExpr(rs.X, mapFields, localMaps) {
 				return true
@@ -621,6 +634,9 @@ func main() {
 	enc.SetIndent("", " ")
 	_ = enc.Encode(out)
 }
+
+// methods that call their argument once per entry of a map, in map iteration order
+var mapWalkers = map[string]bool{"WalkDatabases": true, "WalkRetentionPolicy": true, "WalkContinuousQuery": true, "WalkMigrateEvents": true, "WalkPtView": true}
 
 func isMapExpr(e ast.Expr, mapFields map[string]bool, locals map[string]bool) bool {
 	switch x := e.(type) {
@@ -640,7 +656,13 @@ func isMapExpr(e ast.Expr, mapFields map[string]bool, locals map[string]bool) bo
 
 // classify a map range syntactically
 func classify(rs *ast.RangeStmt, fd *ast.FuncDecl) (string, string) {
-	hasBreak, hasReturn := false, false
+	hasBreak, hasReturn, lastWins := false, false, false
+	loopVars := map[string]bool{}
+	for _, e := range []ast.Expr{rs.Key, rs.Value} {
+		if id, ok := e.(*ast.Ident); ok && id.Name != "_" {
+			loopVars[id.Name] = true
+		}
+	}
 	var appended []string
 	depth := 0
 	var visit func(n ast.Node) bool
@@ -666,6 +688,13 @@ func classify(rs *ast.RangeStmt, fd *ast.FuncDecl) (string, string) {
 				if ce, ok := r.(*ast.CallExpr); ok {
 					if id, ok := ce.Fun.(*ast.Ident); ok && id.Name == "append" && i < len(x.Lhs) {
 						appended = append(appended, exprStr(x.Lhs[i]))
+						continue
+					}
+				}
+				// plain variable = something computed from the current element: the last element reached wins
+				if x.Tok == token.ASSIGN && i < len(x.Lhs) {
+					if id, ok := x.Lhs[i].(*ast.Ident); ok && id.Name != "_" && mentions(r, loopVars) && !mentions(r, map[string]bool{id.Name: true}) {
+						lastWins = true
 					}
 				}
 			}
@@ -673,6 +702,64 @@ func classify(rs *ast.RangeStmt, fd *ast.FuncDecl) (string, string) {
 		return true
 	}
 	ast.Inspect(rs.Body, visit)
+	if lastWins && !hasBreak && !hasReturn {
+		return "choice", "assigns a value computed from the current element to an outer variable: the last element reached wins"
+	}
+	return verdict(hasBreak, hasReturn, countsIDs(rs.Body), appended, rs.End(), fd)
+}
+
+// countsIDs: the body hands out identifiers (x.Max...ID++ / x.Max... = ...) - their values then depend on the iteration order
+func countsIDs(body ast.Node) bool {
+	found := false
+	isMax := func(e ast.Expr) bool {
+		se, ok := e.(*ast.SelectorExpr)
+		return ok && strings.HasPrefix(se.Sel.Name, "Max")
+	}
+	ast.Inspect(body, func(n ast.Node) bool {
+		switch x := n.(type) {
+		case *ast.IncDecStmt:
+			if isMax(x.X) {
+				found = true
+			}
+		case *ast.AssignStmt:
+			for _, l := range x.Lhs {
+				if isMax(l) {
+					found = true
+				}
+			}
+		case *ast.CallExpr:
+			// calls that are known to allocate ids
+			name := ""
+			switch f := x.Fun.(type) {
+			case *ast.Ident:
+				name = f.Name
+			case *ast.SelectorExpr:
+				name = f.Sel.Name
+			}
+			if name == "createIndexGroupIfNeeded" || name == "CreateIndexGroup" || name == "createShards" || name == "newShardGroup" {
+				found = true
+			}
+		}
+		return true
+	})
+	return found
+}
+
+func mentions(e ast.Expr, names map[string]bool) bool {
+	found := false
+	ast.Inspect(e, func(n ast.Node) bool {
+		if id, ok := n.(*ast.Ident); ok && names[id.Name] {
+			found = true
+		}
+		return true
+	})
+	return found
+}
+
+func verdict(hasBreak, hasReturn, ids bool, appended []string, end token.Pos, fd *ast.FuncDecl) (string, string) {
+	if ids {
+		return "choice", "hands out identifiers inside the loop: their values follow the iteration order"
+	}
 	if hasBreak {
 		return "choice", "break inside the loop: the element reached first is used"
 	}
@@ -683,7 +770,7 @@ func classify(rs *ast.RangeStmt, fd *ast.FuncDecl) (string, string) {
 		// is every appended slice sorted later in the function?
 		sortedLater := map[string]bool{}
 		ast.Inspect(fd.Body, func(n ast.Node) bool {
-			if ce, ok := n.(*ast.CallExpr); ok && ce.Pos() > rs.End() {
+			if ce, ok := n.(*ast.CallExpr); ok && ce.Pos() > end {
 				if se, ok := ce.Fun.(*ast.SelectorExpr); ok {
 					if id, ok := se.X.(*ast.Ident); ok && id.Name == "sort" && len(ce.Args) > 0 {
 						a := exprStr(ce.Args[0])
